@@ -408,18 +408,21 @@ impl LexiconReader {
             x => (x, self.entries.len()),
         };
         for e in self.entries.iter() {
-            if e.left_id >= self.max_left {
+            // Connection costs are looked up as matrix[left_node.right_id][right_node.left_id]:
+            // a right_id indexes the first dimension of the matrix (its number of left ids)
+            // and a left_id the second one (its number of right ids).
+            if e.left_id >= self.max_right {
                 return ctx.err(BuildFailure::InvalidFieldSize {
                     actual: e.left_id as _,
-                    expected: self.max_left as _,
+                    expected: self.max_right as _,
                     field: "left_id",
                 });
             }
 
-            if e.right_id >= self.max_right || (e.should_index() && e.right_id < 0) {
+            if e.right_id >= self.max_left || (e.should_index() && e.right_id < 0) {
                 return ctx.err(BuildFailure::InvalidFieldSize {
                     actual: e.right_id as u16 as _,
-                    expected: self.max_right as _,
+                    expected: self.max_left as _,
                     field: "right_id",
                 });
             }
